@@ -87,6 +87,19 @@ def start (adj : UInt8) (g : List α) : List (Call α) :=
   | [x, y] => [.startPath adj x y]
   | _ => []
 
+/-- the 19 drawing methods (everything a path may contain between its start and its end) -/
+def isDrawing : Call α → Bool
+  | .d1 .. | .d2 .. | .d4 .. | .d6 .. | .arc .. => true
+  | _ => false
+
+def isStart : Call α → Bool
+  | .startPath .. => true
+  | _ => false
+
+def isEnd : Call α → Bool
+  | .closeEnd => true
+  | _ => false
+
 /-! ### the generator -/
 
 /-- one operand group of `verb` under the configured transforms -/
